@@ -52,12 +52,24 @@ def mod_of(con, arr):
 
 
 class LoopC:
-    def __init__(self, inv=None, decreases=None, var_types=None, axioms=None, ghost=None):
+    def __init__(self, inv=None, decreases=None, var_types=None, axioms=None, ghost=None, arrays=(), fields=()):
+        self.arrays = tuple(arrays)     # heap arrays known to be written in the loop (saves the learning restarts)
+        self.fields = tuple(fields)     # (local variable holding a PObj, field name) known to be written in the loop
         self.ghost = ghost or {}        # name -> (s, v): term evaluated at loop entry (before the havoc), visible to inv as v.<name>
         self.axioms = axioms            # (s0, s, v): ghost unfolding instances assumed at the loop head
         self.inv = inv
         self.decreases = decreases
         self.var_types = var_types or {}
+
+
+class MergeC:
+    """Merge point inside straight-line / unrolled code: every arriving path proves inv and stops; one path continues from a
+    fresh context (path condition reset to the function-entry facts) with havoc() applied and inv assumed.  Keeps the number
+    of paths linear in the length of unrolled concrete loops."""
+
+    def __init__(self, inv, havoc):
+        self.inv = inv          # (s0, s, ip) -> {name: Bool}
+        self.havoc = havoc      # (ip) -> None
 
 
 class World:
@@ -66,6 +78,8 @@ class World:
         self.node_class = None
         self.contracts = {}
         self.loop_contracts = {}
+        self.loop_factories = {}
+        self.merge_factories = {}       # (qual, loop ordinal) -> fn(ip, iteration index) -> (subkey, MergeC) | None
         self.externals = {}
         self.heap_globals = {}
         self.class_heap_attrs = {}
@@ -83,8 +97,14 @@ class World:
     def loop(self, qual, ordinal, **kw):
         self.loop_contracts[(qual, ordinal)] = LoopC(**kw)
 
-    def loop_contract(self, key):
-        return self.loop_contracts.get(key)
+    def loop_contract(self, key, ip=None):
+        """-> (effective key, LoopC or None).  A factory makes the contract depend on the calling context (e.g. which concrete
+        rule fragment the inlined matcher is working on); its sub-key becomes part of the cut point's identity."""
+        f = self.loop_factories.get(key)
+        if f is not None and ip is not None:
+            sub, lc = f(ip)
+            return key + (sub,), lc
+        return key, self.loop_contracts.get(key)
 
     def in_scope(self, f):
         return getattr(f, "__module__", None) in self.scope_modules
@@ -117,7 +137,7 @@ class TaskResult:
 
 
 class Task:
-    def __init__(self, world, func, contract, name=None, goal_timeout_ms=10000, branch_timeout_ms=3000, max_paths=4000, params=None):
+    def __init__(self, world, func, contract, name=None, goal_timeout_ms=10000, branch_timeout_ms=3000, max_paths=4000, params=None, max_failures=None):
         self.world = world
         self.func = func
         self.con = contract
@@ -126,6 +146,7 @@ class Task:
         self.goal_timeout_ms = goal_timeout_ms
         self.branch_timeout_ms = branch_timeout_ms
         self.max_paths = max_paths
+        self.max_failures = max_failures
         self.params = dict(contract.params)
         if params:
             self.params.update(params)
@@ -273,6 +294,7 @@ class Task:
             self.worklist = [[]]
             self.res.obs = []
             self.res.paths = 0
+            self.merge_owner = {}
             try:
                 while self.worklist:
                     log = self.worklist.pop()
@@ -282,6 +304,10 @@ class Task:
                         self.worklist = []
                         break
                     self.run_path(log)
+                    if self.max_failures is not None and sum(1 for o in self.res.obs if o.status != "proved") >= self.max_failures:
+                        self.res.obs.append(ObRec(f"{self.name}/failure-budget", "undecided", 0.0, f"stopped after {self.max_failures} unproved obligations"))
+                        self.worklist = []
+                        break
                 break
             except Restart:
                 self.res.restarts += 1
@@ -315,6 +341,7 @@ class Task:
                     for nm, f in _clauses(con.axioms(s0, **a), "axiom"):
                         c.assume(f)
                 self.rec_measure = con.decreases(s0, **a) if con.decreases is not None else None
+                c.base_pc = list(c.pc)
                 si = srcinfo(self.func)
                 self.note_function(q, si, inlined=True)
                 fr = Frame(self.func, q, dict(args), self.func.__globals__, si)
